@@ -211,6 +211,9 @@ func GenFuzzFamily(w *Writer, r *Rng, t Tier) error {
 		if i%4 == 3 {
 			sel = 9
 		}
+		if i%16 == 13 {
+			sel = 10
+		}
 		switch sel {
 		case 0, 1, 2:
 			kind = "expr-tokens"
@@ -292,6 +295,18 @@ func GenFuzzFamily(w *Writer, r *Rng, t Tier) error {
 			}
 			text = Render(e, &Style{R: cr, Abbrev: true})
 			got = RunExec(d, cr.Intn(len(d.Cursors)), text, env)
+		case 10:
+			// declared encodings, known and unknown: an error or a tree, never a panic
+			kind = "xml-encoding"
+			label := Pick(cr, []string{"x-no-such-charset", "utf-99", "", " ", "UTF-16", "utf-16le", "UCS-4", "ebcdic-cp-us", "ISO-8859-1", "windows-1252", "latin1", "ascii", "US-ASCII", "utf8", "UTF-8", "iso-8859-16", "koi8-r", "gbk", "shift_jis", "x-user-defined", "replacement", "utf-7", "\u00e9", "a b"})
+			text = "<?xml version=\"1.0\" encoding=\"" + label + "\"?><r a=\"\xe9\">caf\xe9 \xc3\xa9<!--\xff--></r>"
+			if cr.Chance(1, 3) {
+				text = "<?xml version='1.0' encoding='" + label + "'?><r>plain</r>"
+			}
+			got = guard(func() string {
+				c, err := xsel.ReadXml(strings.NewReader(text))
+				return nilCheck(c == nil, err)
+			})
 		case 8:
 			kind = "unmarshal-target"
 			text, got = fuzzUnmarshalTarget(cr, dumps[0])
@@ -349,6 +364,15 @@ func mutateBytes(r *Rng, s string) string {
 	return string(b)
 }
 
+type hxID string
+type hxCelsius float64
+type hxFlag bool
+type hxCount int
+type hxIDs []hxID
+type hxNamedStruct struct {
+	V hxID `xsel:"."`
+}
+
 // arbitrary Go values as Unmarshal targets: nil, non-pointers, nil pointers at any depth,
 // unsupported kinds, nested combinations.  Unmarshal must return (an error or nil), never panic.
 func fuzzUnmarshalTarget(r *Rng, d *Dump) (desc string, outcome string) {
@@ -365,6 +389,27 @@ func fuzzUnmarshalTarget(r *Rng, d *Dump) (desc string, outcome string) {
 		PL *[]string         `xsel:"*"`
 	}
 	_ = T{}.u
+	// defined (named) types, embedded structs, interface-typed and byte-slice fields
+	type D struct {
+		ID  hxID           `xsel:"."`
+		C   *hxCelsius     `xsel:"1.5"`
+		L   []hxID         `xsel:"*"`
+		F   hxFlag         `xsel:"true()"`
+		N   hxCount        `xsel:"1"`
+		Ids hxIDs          `xsel:"*"`
+		I   interface{}    `xsel:"."`
+		Is  []interface{}  `xsel:"*"`
+		B   []byte         `xsel:"."`
+		R   rune           `xsel:"65"`
+		PI  *interface{}   `xsel:"."`
+		S   hxNamedStruct  `xsel:"."`
+		PS  *hxNamedStruct `xsel:"."`
+	}
+	type E struct {
+		inner
+		*D
+		X string `xsel:"."`
+	}
 	var nilT *T
 	var nilSl *[]string
 	var nilPP **T
@@ -386,6 +431,8 @@ func fuzzUnmarshalTarget(r *Rng, d *Dump) (desc string, outcome string) {
 		{"&map", &map[string]int{}}, {"[2]int", [2]int{}}, {"&[2]int", &[2]int{}}, {"chan", make(chan int)}, {"func", fn}, {"&func", &fn},
 		{"int", 3}, {"&int", new(int)}, {"string", "s"}, {"&iface(nil)", &nilIface}, {"[]string", sl}, {"&[]string", &sl}, {"&T", okT},
 		{"[][]int", [][]int{}}, {"&[][]int", &[][]int{}}, {"&[]map", &[]map[string]int{}}, {"&[]chan", &[]chan int{}}, {"uintptr", uintptr(0)},
+		{"&D", &D{}}, {"&[]hxID", &[]hxID{}}, {"&hxID", new(hxID)}, {"&hxIDs", &hxIDs{}}, {"&E", &E{}}, {"&[]E", &[]E{}}, {"&[]*D", &[]*D{}},
+		{"&hxNamedStruct", &hxNamedStruct{}}, {"&[]hxCelsius", &[]hxCelsius{}}, {"&[]interface{}", &[]interface{}{}}, {"&[][]byte", &[][]byte{}},
 		{"&struct{unexported}", &struct {
 			x int `xsel:"1"`
 		}{}},
